@@ -1,6 +1,6 @@
 (* C14: the kernel's interest set is in sync with libuv's registry whenever
    epoll_pwait is called (invariant KI), for every script the guards of the script
-   language admit (the documented rules of uv_poll: a descriptor is not closed while
+   language accept (the documented rules of uv_poll: a descriptor is not closed while
    an active poll handle - or a stream-like watcher that has not been closed - uses
    it; a handle is started only on an open descriptor; stream-like watchers own
    their descriptor number exclusively). *)
@@ -1242,7 +1242,7 @@ Proof.
   - exact Logic.I.
 Qed.
 
-(* C14_kernel_in_sync_at_block: every script the guards admit, both disciplines *)
+(* C14_kernel_in_sync_at_block: every script the guards accept, both disciplines *)
 Theorem kernel_in_sync : forall fdo pw beh os rng strct,
   Forall EK (snd (run fdo pw beh (sinit rng strct) os)).
 Proof.
